@@ -455,11 +455,13 @@ func runC19Stress(c LMStress, ev *vt.Ev) *vt.Failure {
 	var viol atomic.Value
 	var falseReturns, cancels int64
 	var wg sync.WaitGroup
+	var gs vt.GoidSet
 	for w := 0; w < c.Workers; w++ {
 		w := w
 		wg.Add(1)
 		go func() {
 			defer wg.Done()
+			gs.Add()
 			defer func() {
 				if r := recover(); r != nil {
 					viol.Store(fmt.Sprintf("unexpected panic in worker %d: %v", w, r))
@@ -501,16 +503,13 @@ func runC19Stress(c LMStress, ev *vt.Ev) *vt.Failure {
 	}
 	done := make(chan struct{})
 	go func() { wg.Wait(); close(done) }()
-	select {
-	case <-done:
-	case <-time.After(20 * time.Second):
+	// every unfinished worker blocked in each of five samples = deadlock / lost wake-up; a worker that is running or
+	// runnable (a holder that has not been scheduled yet on a busy machine) = keep waiting
+	if mis := vt.Await(done, 20*time.Second, gs.IDs, "lock-map stress"); mis != "" {
 		buf := make([]byte, 1<<16)
 		n := runtime.Stack(buf, true)
 		blocked := strings.Count(string(buf[:n]), "countedLock).Lock")
-		if blocked > 0 {
-			return vt.Failf("C19", "deadlock / lost wake-up: %d goroutines still inside Lock after 20s although every holder unlocks", blocked)
-		}
-		panic("HARNESS: stress run did not finish (no goroutine inside Lock)")
+		return vt.Failf("C19", "deadlock / lost wake-up: %d goroutines still inside Lock although every holder unlocks: %s", blocked, mis)
 	}
 	if v := viol.Load(); v != nil {
 		return vt.Failf("C19", "%s", v.(string))
